@@ -21,6 +21,16 @@ def isc(b):
     return isinstance(b, int)
 
 
+_CTX = z3.main_ctx()
+_CREF = _CTX.ref()
+_mk_xor, _mk_and, _mk_or = z3.Z3_mk_bvxor, z3.Z3_mk_bvand, z3.Z3_mk_bvor
+
+
+def _fx(f, x, y):
+    """z3py operator without the coercion overhead (both operands are BitVec(1) terms of the main context)"""
+    return z3.BitVecRef(f(_CREF, x.ast, y.ast), _CTX)
+
+
 def bterm(b):
     return (ONE if b else ZERO) if isc(b) else b
 
@@ -31,10 +41,10 @@ def bxor(x, y):
     if isc(x):
         x, y = y, x
     if isc(y):
-        return x if y == 0 else x ^ ONE
+        return x if y == 0 else _fx(_mk_xor, x, ONE)
     if x is y:
         return 0
-    return x ^ y
+    return _fx(_mk_xor, x, y)
 
 
 def band(x, y):
@@ -42,7 +52,7 @@ def band(x, y):
         return y if x else 0
     if isc(y):
         return x if y else 0
-    return x & y
+    return _fx(_mk_and, x, y)
 
 
 def bor(x, y):
@@ -50,7 +60,7 @@ def bor(x, y):
         return 1 if x else y
     if isc(y):
         return 1 if y else x
-    return x | y
+    return _fx(_mk_or, x, y)
 
 
 def bnot(x):
@@ -168,10 +178,11 @@ MAXW = None   # optional cap on word width (set by harnesses that only need smal
 
 
 class SInt:
-    __slots__ = ('bits',)
+    __slots__ = ('bits', 'lin')
 
     def __init__(self, bits):
         self.bits = list(bits)
+        self.lin = None      # set by the table-lookup summarisation: value is M.x (GF(2)-linear, no constant) in SInt x
 
     @staticmethod
     def of(v, w=1):
@@ -325,7 +336,9 @@ class SInt:
     __rand__ = __and__
     __ror__ = __or__
 
-    def _cmp(self, o, f, neg_result):
+    def _cmp(self, o, f, neg_result, big_result=None):
+        """neg_result: answer when o < 0; big_result: answer when o >= 2**width (cheap interval reasoning instead of a
+        simplifier call on what may be a very large term)"""
         if isinstance(o, SNum):
             return NotImplemented
         if isinstance(o, bool):
@@ -336,32 +349,38 @@ class SInt:
             raise Unsupported('SInt compared with float')
         if not isinstance(o, (int, SInt, SBool)):
             return NotImplemented
+        if isc(o) and o >= (1 << len(self.bits)) and big_result is not None:
+            return big_result
         o = SInt.of(o)
         w = max(len(self.bits), len(o.bits))
-        return mkbool(f(self.word(w), o.word(w)))
+        t = f(self.word(w), o.word(w))
+        if w <= 16 and sum(1 for b in self.bits if not isc(b)) + sum(1 for b in o.bits if not isc(b)) <= 24 \
+                and all(isc(b) or b.num_args() <= 2 for b in self.bits):
+            return mkbool(t)
+        return SBool(t)
 
     def __lt__(self, o):
-        return self._cmp(o, z3.ULT, False)
+        return self._cmp(o, z3.ULT, False, True)
 
     def __le__(self, o):
-        return self._cmp(o, z3.ULE, False)
+        return self._cmp(o, z3.ULE, False, True)
 
     def __gt__(self, o):
-        return self._cmp(o, z3.UGT, True)
+        return self._cmp(o, z3.UGT, True, False)
 
     def __ge__(self, o):
-        return self._cmp(o, z3.UGE, True)
+        return self._cmp(o, z3.UGE, True, False)
 
     def __eq__(self, o):
         if o is None:
             return False
-        r = self._cmp(o, lambda a, b: a == b, False)
+        r = self._cmp(o, lambda a, b: a == b, False, False)
         return r
 
     def __ne__(self, o):
         if o is None:
             return True
-        r = self._cmp(o, lambda a, b: a != b, True)
+        r = self._cmp(o, lambda a, b: a != b, True, True)
         if isinstance(r, SBool) and isc(o) and o == 0:
             r.nonzero_of = self
         return r
